@@ -909,6 +909,26 @@ FN_OVERLAYS['vector::int_vector_remove'] = dict(loops={0: '''
 ''', 'loop 0 end': '''            proof { r9_j = r9_j + 1; }
 '''})
 
+# BOOLVECTOR / FLOATVECTOR.SORT*ASC / DESC: a permutation of the top vector ordered by the comparator, in place
+# (R13: the sort_by call forms are wrappers with assumed contracts; bool: false before true; f32: the uninterpreted total preorder of total_cmp)
+for nm, x, le in [('BOOLVECTOR.SORT*ASC', 'boolvec', '(%s ==> %s)'), ('BOOLVECTOR.SORT*DESC', 'boolvec', '(%s ==> %s)'),
+                  ('FLOATVECTOR.SORT*ASC', 'floatvec', 'f_total_le(%s, %s)'), ('FLOATVECTOR.SORT*DESC', 'floatvec', 'f_total_le(%s, %s)')]:
+    v0 = 'top(S0.%s, 0).values@' % x; v1 = 'top(S1.%s, 0).values@' % x
+    a, b = ('%s[i]' % v1, '%s[j]' % v1) if nm.endswith('ASC') else ('%s[j]' % v1, '%s[i]' % v1)
+    row(nm, ['C09'], touches=[x], clauses=[
+        ('fired.sorted-permutation', 'S0.%s.len() >= 1 ==> (S1.%s.len() == S0.%s.len() && drop_n(S1.%s, 1) =~= drop_n(S0.%s, 1) '
+         '&& %s.len() == %s.len() && %s.to_multiset() == %s.to_multiset() && (forall|i: int, j: int| 0 <= i < j < %s.len() ==> %s))'
+         % (x, x, x, x, x, v1, v0, v1, v0, v0, le % (a, b))),
+        ('{C09,C10}unfired.%s' % x, 'S0.%s.len() == 0 ==> S1.%s == S0.%s' % (x, x, x))])
+FN_OVERLAYS['vector::bool_vector_sort_desc'] = dict(proofs={'body_start': '''        proof {
+            if push_state.bool_vector_stack@.len() >= 1 { crate::spec::sorted_bools(top(push_state.bool_vector_stack@, 0).values@).lemma_reverse_to_multiset(); }
+        }
+'''})
+FN_OVERLAYS['vector::float_vector_sort_desc'] = dict(proofs={'body_start': '''        proof {
+            if push_state.float_vector_stack@.len() >= 1 { crate::spec::sorted_floats(top(push_state.float_vector_stack@, 0).values@).lemma_reverse_to_multiset(); }
+        }
+'''})
+
 # ------------------------------------------------------------------ C13 / C12: RAND instructions (values: relative to the RNG contract)
 row('BOOLEAN.RAND', ['C13'], pushes=[('bool', None)])
 row('INTEGER.RAND', ['C13'], fired='(S0.config.min_random_integer < S0.config.max_random_integer)',
